@@ -531,7 +531,7 @@ func firstFrames(stack string) string {
 	return strings.Join(lines, "\n")
 }
 
-func TestPropTerminates(t *testing.T) { hx.Check(t, 1500, genCase, runCase) }
+func TestPropTerminates(t *testing.T) { hx.Check(t, 5000, genCase, runCase) }
 
 func TestReplay(t *testing.T) { hx.Replay(t, "TestPropTerminates", 20, runCase) }
 
